@@ -119,7 +119,8 @@ class Ctx(object):
                   coverage=cov, assumptions=self.assumptions, wall_s=round(wall, 2),
                   violations=len(self.violations))
         os.makedirs(os.path.join(VERIF, "evidence"), exist_ok=True)
-        with open(os.path.join(VERIF, "evidence", self.pid + ".json"), "w") as f:
+        evdir = "evidence" if not os.environ.get("VERIF_NO_EVIDENCE") else "out"
+        with open(os.path.join(VERIF, evdir, self.pid + ".json"), "w") as f:
             json.dump(ev, f, indent=1, default=repr)
         for key in sorted(self.known_seen):
             k = self.open_keys[key]
